@@ -594,9 +594,7 @@ def run(tier, seed):
             for t, (l, rl) in enumerate(zip(lists, r["results"])):
                 for k, i in enumerate(l):
                     o = observe(rl[k]) if k < len(rl) else ("lost", "")
-                    R.compare(programs[i], {"mode": f"par{n_threads}", "slot": [t, k],
-                                            "history": [prog_text(programs[j]) for j in l[:k]],
-                                            "_hj": [prog_job(programs[j]) for j in l[:k]]}, refs[i], o)
+                    R.compare(programs[i], {"mode": f"par{n_threads}", "slot": [t, k], "_hl": (l, k)}, refs[i], o)
         R.flush()
         log(f"[C02] par{n_threads} done in {time.time() - t0:.1f}s")
 
@@ -620,7 +618,7 @@ def run(tier, seed):
             rl = a["results"][t] if a.get("status") == "ok" and t < len(a.get("results", [])) else None
             for j, i in enumerate(l):
                 ans = rl[j] if rl is not None and j < len(rl) else {"status": "lost:" + str(a.get("status"))}
-                out.append((i, [t, j], [programs[x]["origin"] for x in l[:j]], [prog_job(programs[x]) for x in l[:j]], ans))
+                out.append((i, [t, j], (l, j), ans))
         return out
 
     import concurrent.futures
@@ -629,8 +627,8 @@ def run(tier, seed):
     with concurrent.futures.ThreadPoolExecutor(max_workers=8) as ex:
         for (rnd, sub), out in zip(rounds, ex.map(one_process, rounds)):
             procs += 1
-            for i, slot, horig, hj, a in out:
-                R.compare(programs[i], {"mode": "process", "slot": [rnd] + slot, "history": horig, "_hj": hj}, refs[i], observe(a))
+            for i, slot, hl, a in out:
+                R.compare(programs[i], {"mode": "process", "slot": [rnd] + slot, "_hl": hl}, refs[i], observe(a))
             if rnd % 10 == 9:
                 R.flush()
     R.flush()
@@ -641,9 +639,25 @@ def run(tier, seed):
     fails = R.failures
     fails.sort(key=lambda f: (len(prog_text(f["program"])), len(json.dumps(f["ctx"].get("history") or ""))))
     reported = 0
+    seen_groups = set()
     for f in fails:
+        g = tuple(f["tags"])
+        if g and g in seen_groups:               # same known class again: counted, not re-matched (match_known re-reads the json files)
+            ck.cov["impl_property_failures"] += 1
+            for t in g:
+                ck.hist("known-class:" + t)
+            continue
+        if not g and reported >= 50:
+            ck.cov["impl_property_failures"] += 1
+            ck.hist("unclassified-difference:" + f["ctx"]["mode"])
+            continue
+        seen_groups.add(g)
         p, ctx = f["program"], dict(f["ctx"])
         hj = ctx.pop("_hj", None)
+        hl = ctx.pop("_hl", None)
+        if hl is not None:                       # earlier compilations of the same thread (par / process modes)
+            hj = [prog_job(programs[x]) for x in hl[0][:hl[1]]]
+            ctx["history"] = [programs[x]["origin"] for x in hl[0][:hl[1]]]
         for t in f["tags"]:
             ck.hist("known-class:" + t)
         if not f["tags"]:
@@ -654,9 +668,10 @@ def run(tier, seed):
                     if r.get("status") == "ok" and observe(r["results"][-1]) != f["reference"]:
                         ctx["history"] = [j.get("input") or j.get("files")]
                         ctx["shrunk"] = True
+                        hj = [j]
                         break
         payload = {"source": p["files"] or p["input"], "entry": p["entry"], "options": p["options"], "origin": p["origin"],
-                   "context": ctx, "reference_observation": list(f["reference"]), "other_observation": list(f["other"]),
+                   "context": ctx, "history_jobs": hj, "reference_observation": list(f["reference"]), "other_observation": list(f["other"]),
                    "expected_by_property": "byte-identical CSS / error text whatever ran before, beside, or in which process",
                    "tags": f["tags"]}
         if ck.impl_violation(case_text(p, ctx.get("history") or (), ctx["mode"]), payload, tags=f["tags"]):
@@ -684,10 +699,7 @@ def replay(path):
     print("program :", json.dumps(src)[:2000])
     print("fresh   :", ref)
     ctx = r.get("context", {})
-    hist = [h for h in (ctx.get("history") or []) if isinstance(h, (str, dict)) and h != "<the program itself>"]
-    hj = [compile_job(h) if isinstance(h, str) else compile_job(files=h, entry="e.scss") for h in hist]
-    if ctx.get("history") == ["<the program itself>"]:
-        hj = [prog_job(p)]
+    hj = r.get("history_jobs") or []
     res = pool.map([seq_job(hj, p)], timeout=60)[0]
     other = observe(res["results"][-1]) if res.get("status") == "ok" else (str(res.get("status")), "")
     print(f"after {len(hj)} prior compilation(s) on the same thread:", other)
